@@ -26,6 +26,61 @@ def make_history(rng, d, n_steps, max_dt):
     return ops
 
 
+def cpp_history(ctx, jobs, res, dist):
+    """The covariance of a linear model does not depend on the state, the control or the readings, so the compiled C++
+    filter is driven through the same sequence of dt / sensor keys with fixed inputs and must reproduce the Python
+    covariances at every checkpoint, up to the rounding bound of the history, and stay symmetric PSD up to it."""
+    import numpy as np
+    cjobs, keep = [], []
+    for job, r in zip(jobs, res):
+        if "error" in r or not r.get("checkpoints"):
+            continue
+        d = job["defn"]
+        keys = sorted(d["sensors"])
+        last = r["checkpoints"][-1]["step"]
+        marks = {c["step"] for c in r["checkpoints"]}
+        ops = ["H"]
+        for i, op in enumerate(job["ops"][:last]):
+            ops.append("P " + float(op[1]).hex() if op[0] == "p" else f"S {keys.index(op[1])}")
+            if (i + 1) in marks:
+                ops.append("R")
+        point = {"state": job["x0"], "P": job["P0"], "control": {u: 0.25 for u in d["control"]},
+                 "readings": {k: {rd: 0.5 for rd in d["sensors"][k]} for k in keys}}
+        cjobs.append({"defn": d, "cse": job["cse"], "k": None, "max_dt": job["max_dt"], "decl": job.get("decl"), "point": point,
+                      "histories": [], "byhand_ops": ops})
+        keep.append((job, r))
+    if not cjobs:
+        return
+    cres = ctx.run_impl_jobs("cpp_mf.py", cjobs)
+    n = 0
+    for (job, r), c in zip(keep, cres):
+        d = job["defn"]
+        if "error" in c or not c.get("compile_ok") or not c.get("run_ok"):
+            ctx.violation("the generated C++ filter could not be generated / compiled / run for a valid definition",
+                          {"definition": d, "observed": {k: c.get(k) for k in ("error", "compile_err", "run_ok")}}, key="cpp-history-build")
+            continue
+        rets = c["histories"][0] if c["histories"] else []
+        ns = len(d["state"])
+        for cp, t in zip(r["checkpoints"], rets):
+            vals = [float.fromhex(x) for x in t["ret"]]
+            Pc = np.array(vals[ns:ns + ns * ns]).reshape(ns, ns)
+            Pp = np.array([[float.fromhex(x) for x in row] for row in cp["cov"]])
+            bound = 2.0 * cp["bound_abs"] + 1e-300
+            n += 1
+            rep = {"definition": d, "cse": job["cse"], "max_dt": job["max_dt"], "P0": job["P0"], "ops": job["ops"][:cp["step"]], "step": cp["step"],
+                   "python_cov": Pp.tolist(), "cpp_cov": Pc.tolist(), "rounding_bound": cp["bound_abs"]}
+            if not np.all(np.isfinite(Pc)) or float(np.max(np.abs(Pc - Pp))) > bound:
+                ctx.violation(f"generated C++ covariance differs from the Python one after {cp['step']} steps by more than the rounding bound of the history",
+                              rep, key="cpp-history-differs")
+                break
+            ev = np.linalg.eigvalsh((Pc + Pc.T) / 2)
+            if -float(ev[0]) > bound or float(np.max(np.abs(Pc - Pc.T))) > bound:
+                ctx.violation(f"generated C++ covariance is not symmetric PSD up to the rounding bound after {cp['step']} steps", rep, key="cpp-history-invalid")
+                break
+    dist["cpp_histories"] = len(keep)
+    dist["cpp_checkpoints_compared"] = n
+
+
 def run(ctx: Ctx):
     n_models, n_steps = (20, 200) if ctx.tier == "quick" else (200, 2000)
     ctx.translate("gen_layout")
@@ -59,6 +114,10 @@ def run(ctx: Ctx):
                      "P0": P0, "x0": {s: M.rnd_point(ctx.rng) for s in d["state"]},
                      "decl": {"container": "set", "perm_seed": i}, "amp_limit": AMP_LIMIT})
     n_gen = len(jobs)
+    n_cpp = 3 if ctx.tier == "quick" else 24
+    every = 20 if ctx.tier == "quick" else 100
+    for j in jobs[:n_cpp]:
+        j["checkpoint_every"] = every
     jobs = jobs + corpus
     res = ctx.run_impl_jobs("hist_py.py", jobs)
     dist = {"models": n_models, "steps_per_history": n_steps, "singular_jacobian_models": 0, "steps_run": 0, "stopped_magnitude": 0,
@@ -103,6 +162,8 @@ def run(ctx: Ctx):
             ctx.violation(f"covariance became indefinite: lambda_min/lambda_max = {r['min_rel_eig']!r}", rep, key="history-indefinite")
         elif in_scope_only and r["max_asym_rel"] > 1e-9:
             ctx.violation(f"covariance became asymmetric: {r['max_asym_rel']!r} relative", rep, key="history-asymmetric")
+    # ---------------- the same histories through the generated C++ filter (compiled, Eigen stand-in)
+    cpp_history(ctx, jobs[:n_cpp], res[:n_cpp], dist)
     # ---------------- the gate: model (regenerated constants) vs implementation on diagonal matrices
     cases = []
     for n in (1, 2, 3, 4):
